@@ -16,6 +16,10 @@
 //!                       start_gossip_loop_with_actor, which address targeted messages through a
 //!                       peer map of their own (a local of the loop): every peer is a loopback
 //!                       TCP listener, the frames each one receives are compared with the oracle
+//!   gossip_server_receive the receiving half: the real GossipManager::start_server on a loopback
+//!                       port, a generated sequence of frames of very different sizes over ONE
+//!                       persistent connection (as the sender loops use it); the delta callback
+//!                       must get exactly the deltas sent, in order
 
 use proptest::prelude::*;
 use redis_sim::redis::SDS;
@@ -1358,6 +1362,204 @@ fn check_manager_case(c: &ManagerCase, ctx: &mut CaseCtx<'_>) -> Result<(), Stri
 }
 
 // ---------------------------------------------------------------------------------------
+// (5) the production gossip server (receiving side)
+// ---------------------------------------------------------------------------------------
+
+#[derive(Clone, Debug, Serialize, Deserialize)]
+struct FrameSpec {
+    /// 0,1 TargetedDelta  2 DeltaBatch  3 Heartbeat  4 SyncResponse  5 SyncRequest
+    kind: u8,
+    /// (key pool index, value padding length)
+    deltas: Vec<(u16, u16)>,
+}
+
+#[derive(Clone, Debug, Serialize, Deserialize)]
+struct ServerCase {
+    frames: Vec<FrameSpec>,
+    /// where the byte stream is cut into separate writes (u16 / 65536 of its length)
+    cuts: Vec<u16>,
+}
+
+fn padded_tag(d: &ReplicationDelta) -> Result<(String, u32, usize), String> {
+    let v = d.value.get().ok_or_else(|| format!("delta for key {:?} lost its value", d.key))?;
+    let s = String::from_utf8_lossy(v.as_bytes()).to_string();
+    let (t, pad) = s
+        .strip_prefix('t')
+        .and_then(|r| r.split_once(':'))
+        .ok_or_else(|| format!("delta for key {:?} carries an unknown value", d.key))?;
+    Ok((d.key.clone(), t.parse::<u32>().map_err(|e| e.to_string())?, pad.len()))
+}
+
+enum ServerOutcome {
+    Received(Vec<(String, u32, usize)>),
+    Inconclusive(String),
+}
+
+fn run_server_case(c: &ServerCase) -> Result<(Vec<(String, u32, usize)>, ServerOutcome), String> {
+    use redis_sim::production::GossipManager;
+    use tokio::io::{AsyncReadExt, AsyncWriteExt};
+    use tokio::net::{TcpListener, TcpStream};
+    // the byte stream and what the callback must see
+    let mut expected: Vec<(String, u32, usize)> = Vec::new();
+    let mut stream_bytes: Vec<u8> = Vec::new();
+    let mut tag = 0u32;
+    let src = ReplicaId::new(7);
+    for (fi, f) in c.frames.iter().enumerate() {
+        let deltas: Vec<ReplicationDelta> = f
+            .deltas
+            .iter()
+            .map(|(ki, len)| {
+                tag += 1;
+                let key = key_at(*ki).to_string();
+                let v = ReplicatedValue::with_value(
+                    SDS::from_str(&format!("t{}:{}", tag, "x".repeat(*len as usize))),
+                    LamportClock::new(src),
+                );
+                ReplicationDelta::new(key, v, src)
+            })
+            .collect();
+        let carried: Vec<(String, u32, usize)> = deltas.iter().map(padded_tag).collect::<Result<_, _>>()?;
+        let msg = match f.kind % 6 {
+            0 | 1 => GossipMessage::new_targeted_delta(src, ReplicaId::new(2), deltas, fi as u64),
+            2 => GossipMessage::new_delta_batch(src, deltas, fi as u64),
+            3 => GossipMessage::new_heartbeat(src, fi as u64),
+            4 => GossipMessage::SyncResponse {
+                source_replica: src,
+                deltas,
+            },
+            _ => GossipMessage::SyncRequest {
+                source_replica: src,
+                known_versions: f.deltas.iter().map(|(k, l)| (key_at(*k).to_string(), *l as u64)).collect(),
+            },
+        };
+        // what the server hands to the callback: the deltas of delta-carrying messages
+        if matches!(f.kind % 6, 0 | 1 | 2 | 4) {
+            expected.extend(carried);
+        }
+        let data = msg.serialize().map_err(|e| e.to_string())?;
+        stream_bytes.extend_from_slice(&(data.len() as u32).to_be_bytes());
+        stream_bytes.extend_from_slice(&data);
+    }
+    let mut cuts: Vec<usize> = c.cuts.iter().map(|x| (*x as usize * (stream_bytes.len() + 1)) >> 16).collect();
+    cuts.sort();
+    cuts.push(stream_bytes.len());
+    let outcome = vcore::block_on(async {
+        // start_server listens on 3001 + replica_id: pick a replica id whose port is free now
+        let port = match TcpListener::bind("127.0.0.1:0").await.and_then(|l| l.local_addr()) {
+            Ok(a) if a.port() > 3002 => a.port(),
+            Ok(_) => return ServerOutcome::Inconclusive("port".into()),
+            Err(e) => return ServerOutcome::Inconclusive(format!("bind: {}", e)),
+        };
+        let cfg = ReplicationConfig::new_cluster((port - 3001) as u64, vec![]);
+        let got: Arc<std::sync::Mutex<Vec<(String, u32, usize)>>> = Arc::new(std::sync::Mutex::new(Vec::new()));
+        let bad: Arc<std::sync::Mutex<Option<String>>> = Arc::new(std::sync::Mutex::new(None));
+        let (g2, b2) = (got.clone(), bad.clone());
+        let server = tokio::spawn(GossipManager::start_server(
+            cfg,
+            Arc::new(move |deltas: Vec<ReplicationDelta>| {
+                for d in &deltas {
+                    match padded_tag(d) {
+                        Ok(x) => g2.lock().unwrap().push(x),
+                        Err(e) => *b2.lock().unwrap() = Some(e),
+                    }
+                }
+            }),
+        ));
+        // connect (the listener appears as soon as the server task has run)
+        let mut sock = None;
+        for _ in 0..2000 {
+            if server.is_finished() {
+                return ServerOutcome::Inconclusive("server: could not listen".into());
+            }
+            match TcpStream::connect(("127.0.0.1", port)).await {
+                Ok(s) => {
+                    sock = Some(s);
+                    break;
+                }
+                Err(_) => tokio::time::sleep(std::time::Duration::from_millis(1)).await,
+            }
+        }
+        let Some(mut sock) = sock else {
+            server.abort();
+            return ServerOutcome::Inconclusive("connect".into());
+        };
+        let io = async {
+            let mut last = 0usize;
+            for &cut in &cuts {
+                if cut > last {
+                    sock.write_all(&stream_bytes[last..cut]).await?;
+                    sock.flush().await?;
+                    tokio::task::yield_now().await;
+                    last = cut;
+                }
+            }
+            // half-close: the handler reads EOF after the last frame, returns and drops its socket;
+            // our read side then sees EOF — everything before has been handed to the callback
+            sock.shutdown().await?;
+            let mut rest = Vec::new();
+            sock.read_to_end(&mut rest).await?;
+            Ok::<(), std::io::Error>(())
+        };
+        let r = tokio::time::timeout(std::time::Duration::from_secs(20), io).await;
+        server.abort();
+        match r {
+            Err(_) => ServerOutcome::Inconclusive("timeout".into()),
+            Ok(Err(e)) => ServerOutcome::Inconclusive(format!("io: {}", e.kind())),
+            Ok(Ok(())) => {
+                if let Some(e) = bad.lock().unwrap().take() {
+                    return ServerOutcome::Received(vec![(format!("<{}>", e), 0, 0)]);
+                }
+                let v = got.lock().unwrap().clone();
+                ServerOutcome::Received(v)
+            }
+        }
+    });
+    Ok((expected, outcome))
+}
+
+fn check_server_case(c: &ServerCase, ctx: &mut CaseCtx<'_>) -> Result<(), String> {
+    if c.frames.is_empty() {
+        return Ok(());
+    }
+    let (expected, outcome) = run_server_case(c)?;
+    let got = match outcome {
+        ServerOutcome::Received(g) => g,
+        ServerOutcome::Inconclusive(why) => {
+            ctx.abstain();
+            ctx.label(&format!("inconclusive:{}", why.split(':').next().unwrap_or("")));
+            return Ok(());
+        }
+    };
+    if got != expected {
+        let at = got.iter().zip(expected.iter()).position(|(a, b)| a != b).unwrap_or(got.len().min(expected.len()));
+        let show = |v: &Vec<(String, u32, usize)>| {
+            v.iter().skip(at.saturating_sub(1)).take(4).map(|(k, t, l)| format!("{:?}#{}(+{}B)", k, t, l)).collect::<Vec<_>>().join(", ")
+        };
+        return Err(format!(
+            "GossipManager::start_server: {} frames over one connection carried {} deltas, the delta callback received {}; first difference at delta {}:\n    sent:     … {}\n    received: … {}\n    frame sizes (deltas, padding): {:?}",
+            c.frames.len(),
+            expected.len(),
+            got.len(),
+            at,
+            show(&expected),
+            show(&got),
+            c.frames.iter().map(|f| (f.kind % 6, f.deltas.len(), f.deltas.iter().map(|d| d.1 as usize).sum::<usize>())).collect::<Vec<_>>()
+        ));
+    }
+    ctx.add_evaluations(expected.len() as u64);
+    let sizes: BTreeSet<usize> = c
+        .frames
+        .iter()
+        .filter(|f| matches!(f.kind % 6, 0 | 1 | 2 | 4) && !f.deltas.is_empty())
+        .map(|f| f.deltas.iter().map(|d| d.1 as usize + 40).sum())
+        .collect();
+    if sizes.len() >= 2 {
+        ctx.nontrivial(&format!("{:?}", c.frames));
+    }
+    Ok(())
+}
+
+// ---------------------------------------------------------------------------------------
 
 fn main() {
     let args = vcore::parse_args();
@@ -1559,6 +1761,21 @@ fn main() {
                 })
         },
         check_manager_case,
+    );
+
+    s.describe_check(
+        "gossip_server_receive",
+        "GossipManager::start_server on a loopback port (3001 + a replica id chosen so that the port is free); 1..=12 generated frames (TargetedDelta, DeltaBatch, SyncResponse, Heartbeat, SyncRequest; 0..=6 deltas each with 0..=4000 bytes of value padding, so long and short frames alternate) written over ONE connection in generated chunks; half-close and wait for the server's close (structural); the delta callback must have received exactly the deltas sent, in order",
+    );
+    s.run_cases(
+        "gossip_server_receive",
+        s.scale(100, 3_000),
+        || {
+            let pad = prop_oneof![3 => 0u16..8, 2 => 8u16..200, 2 => 200u16..1500, 1 => 1500u16..=4000];
+            let frame = (0u8..6, proptest::collection::vec((any::<u16>(), pad), 0..=6)).prop_map(|(kind, deltas)| FrameSpec { kind, deltas });
+            (proptest::collection::vec(frame, 1..=12), proptest::collection::vec(any::<u16>(), 0..4)).prop_map(|(frames, cuts)| ServerCase { frames, cuts })
+        },
+        check_server_case,
     );
 
     s.finish();
